@@ -16,3 +16,4 @@ pub mod h_cat;
 pub mod h_c18;
 pub mod h_c13;
 pub mod h_map;
+pub mod catalogue_gen;
